@@ -48,7 +48,6 @@ MCNext == Next /\ UNCHANGED gen
 LabVals == IF GenA = 1 THEN {<<0>>, <<1>>, <<Missing>>}
            ELSE {<<a, b>> : a \in {0, 1, Missing}, b \in {0, 1, Missing}}
 WVals   == IF GenA = 1 THEN {<<1>>, <<2>>} ELSE {<<1, 1>>, <<2, 2>>, <<1, 2>>}
-BaseSets == UNION {[1..n -> LabVals \X WVals] : n \in 1..GenN}
 AsData(f) == [i \in DOMAIN f |-> <<i, f[i][1], f[i][2]>>]
 
 Flip(w) == IF w = 1 THEN 2 ELSE 1
@@ -69,16 +68,15 @@ Permute(D, p) ==
       [] p = "lab-first" -> SelectSeq(D, IsLabeledSample) \o SelectSeq(D, LAMBDA s : ~IsLabeledSample(s))
       [] p = "unl-first" -> SelectSeq(D, LAMBDA s : ~IsLabeledSample(s)) \o SelectSeq(D, IsLabeledSample)
 
-Variants(D) ==
-    LET unl == {i \in DOMAIN D : ~IsLabeledSample(D[i])}
-        mis == {i \in DOMAIN D : HasMissing(D[i])}
-    IN  {Permute(Keep(Reweight(D, rw), {D[i][1] : i \in drop}), p) :
-            drop \in SUBSET unl, rw \in SUBSET mis, p \in Perms}
-
-PairCases == UNION {{<<AsData(f), E>> : E \in Variants(AsData(f)) \ {AsData(f)}} : f \in BaseSets}
-
-PairInit == /\ InitWith("plain", 0, FALSE, FALSE, Fixed1, FALSE)
-            /\ gen \in PairCases
+PairInit ==
+    /\ InitWith("plain", 0, FALSE, FALSE, Fixed1, FALSE)
+    /\ \E n \in 1..GenN : \E f \in [1..n -> LabVals \X WVals] :
+         LET D   == AsData(f)
+             unl == {i \in DOMAIN D : ~IsLabeledSample(D[i])}
+             mis == {i \in DOMAIN D : HasMissing(D[i])}
+         IN  \E drop \in SUBSET unl, rw \in SUBSET mis, p \in Perms :
+               LET E == Permute(Keep(Reweight(D, rw), {D[i][1] : i \in drop}), p)
+               IN  E # D /\ gen = <<D, E>>
 \* the generator itself promises the relation the property is about
 PairOK   == gen = <<>> \/ Labeled(gen[1]) = Labeled(gen[2])
 GenPair  == PrintT(ToJson([d |-> gen[1], e |-> gen[2], ok |-> PairOK])) /\ FALSE
